@@ -20,6 +20,10 @@ BUF_FUNCS = {"asarray", "atleast_1d", "atleast_2d", "atleast_3d", "ascontiguousa
              "ravel", "squeeze", "transpose", "swapaxes", "asfortranarray", "broadcast_to", "expand_dims", "moveaxis"}
 BUF_METHODS = {"reshape", "ravel", "squeeze", "view", "transpose", "swapaxes", "to_numpy", "__array__", "get_values",
                "diagonal", "set_index", "rename"}      # may share the buffer
+# attributes computed on access: the result is a new object (DatetimeIndex components, shapes, accessors)
+COMPUTED_ATTRS = {"dayofyear", "year", "month", "day", "hour", "minute", "second", "days_in_month", "weekday", "dayofweek",
+                  "quarter", "shape", "size", "ndim", "dtype", "dtypes", "nbytes", "itemsize", "str", "dt", "cat",
+                  "is_monotonic_increasing", "freq", "tz", "empty", "name"}
 WRAPPERS = {"pd.Series", "pd.DataFrame", "pandas.Series", "pandas.DataFrame"}
 FRESH_METHODS = {"copy", "astype", "flatten", "clone", "tolist", "deepcopy", "sum", "mean", "min", "max", "std", "any",
                  "all", "cumsum", "sort_values", "sort_index", "dropna", "round", "clip", "fillna", "apply", "groupby",
@@ -95,6 +99,8 @@ class FnAnalysis:
                         return AliasVal([root], [root])
                     if d.startswith(path + ".") and d[len(path) + 1:] in BUF_ATTRS:
                         return AliasVal([], [root])
+            if e.attr in COMPUTED_ATTRS:
+                return NONE
             base = self.val(e.value)
             if not base:
                 return NONE
